@@ -13,6 +13,7 @@
 -/
 import LccModel.Lemmas.SessionIso
 import LccModel.Lemmas.WriterIso
+import LccModel.Lemmas.ThreadsAttach
 
 namespace LccModel.C06
 open LccModel.Report LccModel.Session LccModel.Writer LccModel.SessionIso LccModel.WriterIso
@@ -187,5 +188,70 @@ example :
      | .error _ => none)
     = some ([("A", ["a1", "a2"]), ("A", ["a-thread"])], [("B", ["b1", "b2"]), ("B2", ["b3"])]) := by
   decide
+
+/-! ## (c) attachment names (M14): the counter under `_attachment_lock` -/
+
+section Attachments
+open LccModel.Threads
+
+/-- **`attachment_names_distinct`** — "attachment files get distinct names".  For EVERY interleaving of
+    any number of threads, each running any number of `prepare_attachment` calls as the atomic steps
+    {acquire lock; read counter and compute the name; read counter; write counter + 1; release; write
+    the file; fire the event}, the numbers that prefix the file names are handed out in strictly
+    increasing order — in particular they are pairwise distinct. -/
+theorem attachment_names_distinct {tr : List (Nat × Attach.Act)} {s : Attach.St}
+    (h : Attach.run true Attach.init tr = some s) :
+    (Attach.numbers s).Pairwise (· < ·) ∧ (Attach.numbers s).Pairwise (· ≠ ·) := by
+  have hinv := Attach.run_inv tr Attach.init s Attach.inv_init h
+  have h1 := Attach.numbers_increasing hinv
+  exact ⟨h1, h1.imp (fun hab => Nat.ne_of_lt hab)⟩
+
+/-- … and the numbers are exactly 1, 2, …, k without gaps (no name is skipped or reused). -/
+theorem attachment_names_consecutive {tr : List (Nat × Attach.Act)} {s : Attach.St}
+    (h : Attach.run true Attach.init tr = some s) :
+    Attach.numbers s = (List.range (Attach.numbers s).length).map (· + 1) := by
+  have hinv := Attach.run_inv tr Attach.init s Attach.inv_init h
+  have := hinv.names
+  unfold Attach.numbers
+  rw [this]; simp
+
+/-- **Mutual exclusion** is what the proof rests on: at most the lock holder is between `acquire` and
+    `release`. -/
+theorem attachment_critical_section_exclusive {tr : List (Nat × Attach.Act)} {s : Attach.St}
+    (h : Attach.run true Attach.init tr = some s) {t u : Nat}
+    (ht : Attach.inCS (s.pc t) = true) (hu : Attach.inCS (s.pc u) = true) : t = u := by
+  have hinv := Attach.run_inv tr Attach.init s Attach.inv_init h
+  have h1 := hinv.cs t ht
+  have h2 := hinv.cs u hu
+  rw [h1] at h2; injection h2
+
+/-- **What the lock is for** (refutation of the lock-free variant): without `_attachment_lock` two
+    threads can both read the counter before either writes it back and get the SAME number (a lost
+    update of `_attachment_count += 1` is an instance of the same overlap). -/
+theorem lockfree_names_collide :
+    ∃ tr, (Attach.run false Attach.init tr).map Attach.numbers = some [1, 1] :=
+  ⟨[(1, .acquire), (2, .acquire), (1, .readName), (2, .readName), (1, .readInc), (1, .writeInc),
+    (2, .readInc), (2, .writeInc)], by decide⟩
+
+/-- non-vacuity of `attachment_names_distinct`: with the lock the first interleaving above is NOT
+    accepted (thread 2 blocks on `acquire`), and a two-thread interleaving that is accepted hands out 1, 2 -/
+example : Attach.run true Attach.init [(1, .acquire), (2, .acquire)] = none := by decide
+example : (Attach.run true Attach.init
+    [(1, .acquire), (1, .readName), (2, .writeFile)]).map Attach.numbers = none := by decide
+example : (Attach.run true Attach.init
+    [(1, .acquire), (1, .readName), (1, .readInc), (1, .writeInc), (1, .release),
+     (2, .acquire), (1, .writeFile), (2, .readName), (2, .readInc), (1, .fireEvent), (2, .writeInc), (2, .release),
+     (2, .writeFile), (2, .fireEvent)]).map (fun s => (Attach.numbers s, s.files, s.events))
+    = some ([1, 2], [1, 2], [1, 2]) := by decide
+
+/-- **`attachment_exists_before_event`** — "attachment files … exist on disk with the written content
+    whenever the report references them".  For every interleaving, with or without the lock: every
+    number referenced by a fired LogAttachmentEvent belongs to a file that has already been written
+    (program order of `prepare_attachment`: yield → the caller writes the file → the event is fired). -/
+theorem attachment_exists_before_event {b : Bool} {tr : List (Nat × Attach.Act)} {s : Attach.St}
+    (h : Attach.run b Attach.init tr = some s) : ∀ n ∈ s.events, n ∈ s.files :=
+  (Attach.run_fileInv tr Attach.init s Attach.fileInv_init h).events
+
+end Attachments
 
 end LccModel.C06
